@@ -18,9 +18,12 @@ type store struct {
 	metadata btree.Map[string, *metadata]
 	// pending holds the placeholders of keys that do not exist but are locked by a transaction
 	// (which may be about to create them); guarded by mu like the index
-	pending     map[string]*metadata
-	ss          storage.Storage
-	closed      bool
+	pending map[string]*metadata
+	ss      storage.Storage
+	closed  bool
+	// execMu makes EXEC exclusive: every command served to a connection holds it shared, EXEC
+	// holds it alone from the check of the watched keys to the last queued command
+	execMu      sync.RWMutex
 	watchMu     sync.RWMutex
 	watchedKeys btree.Map[string, *list.LinkedListG[*redis.Conn]]
 }
